@@ -112,6 +112,11 @@ def select_projects(tier, rng):
         g = P.gen_nested(lang, rng, n_units=2)
         projs.append({"name": f"gen_nested_{lang}_{i}", "lang": lang, "files": pack_files(g["files"]), "settings": g["settings"],
                       "extra": [], "origin": "generated", "probe_fields": g["probe_fields"]})
+    # Python-only shapes: package trees with overlapping dotted imports, classes with __init__ AND __post_init__
+    for i in range(3 if thorough else 1):
+        g = P.gen_pyshapes(rng, n=2)
+        projs.append({"name": f"gen_pyshapes_{i}", "lang": "python", "files": pack_files(g["files"]), "settings": g["settings"],
+                      "extra": [], "origin": "generated"})
     # option variants of hand-written projects: the statement says "same options", whatever they are
     variants = [("py_store_taint", ["--graph"]), ("js_classes_taint", ["--enable-p2"])]
     if thorough:
@@ -239,7 +244,8 @@ class Plan:
         self.meta = {}          # job id -> (project name, seed, variant)
         self.done = []          # jobs already run in an earlier phase (kept for witnesses / replay cases)
 
-    def job(self, proj, seed, variant, *, in_path, in_root, workspace, kind="fork", pre=(), front=False, lock=None, order=None):
+    def job(self, proj, seed, variant, *, in_path, in_root, workspace, kind="fork", pre=(), front=False, lock=None, order=None,
+            cwd=None, symlink=None):
         jid = f"{proj['name']}|s{seed}|{variant}"
         j = {"id": jid, "kind": kind, "lang": proj["lang"], "in_paths": [in_path], "in_roots": [in_root],
              "workspace": workspace, "settings": proj["settings_dir"], "extra": proj["extra"],
@@ -247,7 +253,7 @@ class Plan:
              "keep": os.path.join(self.root if not workspace.startswith(self.tmpfs_root or "\0") else self.tmpfs_root,
                                   "keep", _safe(jid)),
              "pre": list(pre), "timeout": self.timeout, "hashseed": seed, "cli_timeout": max(300, self.timeout), "order": order,
-             "probe_fields": proj.get("probe_fields") if variant == "base" else None}
+             "probe_fields": proj.get("probe_fields") if variant == "base" else None, "cwd": cwd, "symlink": symlink}
         lst = self.jobs.setdefault(seed, [])
         if front:
             lst.insert(0, j)
@@ -259,6 +265,40 @@ class Plan:
 
 def _safe(s):
     return "".join(c if c.isalnum() or c in "-_." else "_" for c in s)[-150:]
+
+
+LOCATIONS = ("loc-long", "loc-named", "loc-probe", "loc-relative", "loc-symlink", "loc-inside-input")
+
+
+def location_kw(root, p, tag):
+    """Job arguments for one way of placing / addressing the workspace (None: not applicable to this project).
+      loc-long          another absolute path, much longer          loc-named   a path that already contains 'lian_workspace'
+      loc-probe         the thorough tier's phase-0 location         loc-relative  a RELATIVE -w (relative to the cwd)
+      loc-symlink       -w goes through a symbolic link              loc-inside-input  -w two levels inside the (private
+                                                                                        copy of the) input directory"""
+    n = _safe(p["name"])
+    kw = dict(in_path=p["in_path"], in_root=p["in_root"])
+    if tag == "loc-long":
+        kw["workspace"] = os.path.join(root, "elsewhere_with_a_considerably_longer_directory_name", n, "nested", "deeper")
+    elif tag == "loc-named":
+        kw["workspace"] = os.path.join(root, "w", n[:40], "my_lian_workspace_dir")
+    elif tag == "loc-probe":
+        kw["workspace"] = os.path.join(root, "p", n)
+    elif tag == "loc-relative":
+        kw.update(workspace=os.path.join("rel_out", "ws"), cwd=os.path.join(root, "relcwd", n), lock=os.path.join(root, "locks", "rel_" + n))
+    elif tag == "loc-symlink":
+        link = os.path.join(root, "lnk", n)
+        kw.update(workspace=os.path.join(link, "ws"), symlink=[link, os.path.join(root, "lnk_target", n)])
+    elif tag == "loc-inside-input":
+        if p.get("single_file"):
+            return None
+        in_root = os.path.join(root, "in_priv", n)
+        shutil.rmtree(in_root, ignore_errors=True)
+        in_path = materialise(p, in_root)
+        kw.update(in_path=in_path, in_root=in_root, workspace=os.path.join(in_path, "out", "deep"))
+    else:
+        raise ValueError(tag)
+    return kw
 
 
 def prepare_projects(projs, root):
@@ -274,7 +314,7 @@ def probe_plan(projs, seed, root, tmpfs_root, timeout):
     itself fails and the heavy ones; the runs double as 'another workspace location' for the main phase."""
     plan = Plan(root, tmpfs_root, timeout)
     for p in projs:
-        plan.job(p, seed, "loc-probe", workspace=os.path.join(root, "p", _safe(p["name"])), in_path=p["in_path"], in_root=p["in_root"])
+        plan.job(p, seed, "loc-probe", **location_kw(root, p, "loc-probe"))
     return plan
 
 
@@ -306,12 +346,19 @@ def build_plan(projs, seeds, tier, rng, root, tmpfs_root, timeout, probe=None):
                 j = plan.job(p, s, f"rep{r}", workspace=p["same_ws"], **common_kw)
                 plan.pairs.append(("repetition", p["name"], base[s], j, "bytes", f"run {r + 1} vs run 1, PYTHONHASHSEED {s}"))
         # workspace location: other absolute paths of different length (one already containing 'lian_workspace')
-        locs = [("loc-long", os.path.join(root, "elsewhere_with_a_considerably_longer_directory_name", _safe(p["name"]), "nested", "deeper"))]
-        if (thorough and not p.get("heavy")) or (not thorough and i % 4 == 0):
-            locs.append(("loc-named", os.path.join(root, "w", _safe(p["name"])[:40], "my_lian_workspace_dir")))
-        for tag, ws in locs:
+        # and other ways of ADDRESSING it: a relative -w, a -w through a symbolic link, a -w inside the input directory
+        locs = ["loc-long"]
+        if thorough:
+            if not p.get("heavy"):
+                locs += ["loc-named", ("loc-relative", "loc-symlink", "loc-inside-input")[i % 3]]
+        else:
+            locs.append(("loc-named", "loc-relative", "loc-symlink", "loc-inside-input")[i % 4])
+        for tag in locs:
+            kw = location_kw(root, p, tag)
+            if kw is None:
+                continue
             s = next_seed()
-            j = plan.job(p, s, tag, workspace=ws, **common_kw)
+            j = plan.job(p, s, tag, **kw)
             plan.pairs.append(("workspace-path", p["name"], base[s], j, "decoded", f"{tag}, PYTHONHASHSEED {s}"))
         if probe:
             plan.pairs.append(("workspace-path", p["name"], base[s0], f"{p['name']}|s{s0}|loc-probe", "decoded", f"loc-probe, PYTHONHASHSEED {s0}"))
@@ -485,7 +532,8 @@ def judge_pair(chk, plan, results, pair, projs_by_name, stats):
         w = {"where": "#missing", "row": None, "a": rel in sa, "b": rel in sb}
     else:
         r = forkpool.run_one(witness_job, (ja["keep"], jb["keep"], rel,
-                                           artefacts.subst_for(va["ws"], ja["in_roots"]), artefacts.subst_for(vb["ws"], jb["in_roots"])),
+                                           va.get("subst") or artefacts.subst_for(va["ws"], ja["in_roots"]),
+                                           vb.get("subst") or artefacts.subst_for(vb["ws"], jb["in_roots"])),
                              timeout=300, tag="wit")
         w = r.value if r.status == "ok" and r.value else {"where": "#undecodable", "row": None, "a": str(r.value)[:300], "b": r.status}
     sig = f"{artefacts.stem(rel)}:{w['where']}:{dim}"
@@ -547,12 +595,8 @@ def replay(chk, case):
         spec = case[side]
         v = spec["variant"]
         kw = dict(in_path=proj["in_path"], in_root=proj["in_root"], workspace=proj["same_ws"])
-        if v == "loc-long":
-            kw["workspace"] = os.path.join(root, "elsewhere_with_a_considerably_longer_directory_name", _safe(proj["name"]), "nested", "deeper")
-        elif v == "loc-probe":
-            kw["workspace"] = os.path.join(root, "p", _safe(proj["name"]))
-        elif v == "loc-named":
-            kw["workspace"] = os.path.join(root, "w", _safe(proj["name"])[:40], "my_lian_workspace_dir")
+        if v in LOCATIONS:
+            kw = location_kw(root, proj, v)
         elif v.startswith("order"):
             order = spec.get("order") or sorted(proj["files"])
             in_root = os.path.join(tmpfs_root, "in", v, _safe(proj["name"]))
